@@ -254,6 +254,11 @@ def match_all(exp_list, pool, pred, describe):
 
 def compare_cell(exp, got, g, circle_tol_grid, read_tol_grid, stats=None):
     polys, paths, labels, refs = expand_got(got, g)
+    compare_expanded(exp, polys, paths, labels, refs, circle_tol_grid, read_tol_grid)
+
+
+def compare_expanded(exp, polys, paths, labels, refs, circle_tol_grid, read_tol_grid):
+    """exp: one entry of expected(); the other lists: placements of the re-loaded / decoded cell in grid units"""
     # ---- polygons (representation independent: rectangles, trapezoids come back as the same vertex cycle)
     def poly_pred(e, x, tol):
         if x["tag"] != e["tag"] or not props_same(e["props"], x["props"]):
@@ -267,6 +272,10 @@ def compare_cell(exp, got, g, circle_tol_grid, read_tol_grid, stats=None):
         if any(abs(a - b) > slack for a, b in zip(e["bb"], x["bb"])):
             return None
         gp = dedupe_closed(x["pts"])
+        if e.get("circle") and x.get("is_circle"):
+            h = hausdorff(e["pts"], x["pts"])      # both sides may be renderings of the same CIRCLE record
+            if h <= 1e-6 * max(1.0, abs(e["pts"][0][0])) + 1e-6:
+                return h
         if cyc_match(e["pts"], gp, tol):
             for px, py in x["pts"]:
                 on_grid(px, "polygon vertex")
